@@ -34,7 +34,7 @@ except Exception:  # pragma: no cover
     Case = None  # type: ignore
 
 PID = "C06"
-LEAN_MODULES = ["KrroodVerif.Props.C06"]
+LEAN_MODULES = ["KrroodVerif.Props.C06", "KrroodVerif.Props.C06T"]
 THEOREMS = [
     "KrroodVerif.OrmGen.C06_valid_partial",
     "KrroodVerif.OrmGen.C06_full",
@@ -48,7 +48,62 @@ THEOREMS = [
     "KrroodVerif.OrmGen.C06_perm_invariant",
     "KrroodVerif.OrmGen.C06_cex_self_list",
     "KrroodVerif.OrmGen.C06_cex_no_builtin",
+    # second tie (Props/C06T.lean): the kind dispatch and the mapper-argument rules as tables
+    "KrroodVerif.OrmGen.genField_eq_interp",
+    "KrroodVerif.OrmGen.generate_eq_interp",
+    "KrroodVerif.OrmGen.C06_generateT_eq_of_ok",
+    "KrroodVerif.OrmGen.C06_generateT_ext",
+    "KrroodVerif.OrmGen.C06_complete_of_tables",
+    "KrroodVerif.OrmGen.C06_full_of_tables",
+    "KrroodVerif.OrmGen.C06_spec_of_tables",
+    "KrroodVerif.OrmGen.C06_perm_invariant_of_tables",
+    "KrroodVerif.OrmGen.C06_inherit_condition_of_rules",
+    "KrroodVerif.OrmGen.C06_of_translated_tables",
 ]
+TRANSLATED = ["KrroodVerif.OrmGen.Translated.C06_dispatch_translated_eq_model",
+              "KrroodVerif.OrmGen.Translated.C06_mapper_translated_eq_model",
+              "KrroodVerif.OrmGen.Translated.C06_dispatch_translated_ok",
+              "KrroodVerif.OrmGen.Translated.C06_mapper_translated_ok",
+              "KrroodVerif.OrmGen.Translated.C06_translated_meets_property"]
+
+
+def extra_obligations():
+    """Second tie: regenerate the decision list of `WrappedTable.parse_field` and the rules of
+    `WrappedTable.create_mapper_args` from /repo's CURRENT source (Python ast) and have the kernel re-check that they
+    (i) are extensionally the pinned tables (`OrmGen.dispatch`, `OrmGen.mapperRules`, for which `generate_eq_interp`
+    proves that the model IS the table-driven generator) and (ii) pass `DispatchOk` / `MapperOk`, from which
+    `C06_of_translated_tables` derives the property theorems for the generator driven by the regenerated tables."""
+    import core
+    from translate.c06_translate import generate as gen, TranslationError
+    try:
+        text = gen(core.REPO)
+    except (TranslationError, SyntaxError, OSError, RecursionError) as e:
+        return [{"name": n, "ok": False, "detail": f"translator rejected the source: {e}"} for n in TRANSLATED]
+    tmp = core.LEAN_DIR / ".lake" / "audit"
+    tmp.mkdir(parents=True, exist_ok=True)
+    f = tmp / f"C06Translated_{os.getpid()}.lean"
+    f.write_text(text + "".join(f"#print axioms {n}\n" for n in TRANSLATED))
+    try:
+        p = subprocess.run(["lake", "env", "lean", str(f)], cwd=str(core.LEAN_DIR), capture_output=True, text=True,
+                           timeout=600)
+    finally:
+        try:
+            f.unlink()
+        except OSError:
+            pass
+    out = " ".join(((p.stdout or "") + (p.stderr or "")).split())
+    res = []
+    for n in TRANSLATED:
+        m = re.search(r"'" + re.escape(n) + r"' depends on axioms: \[([^\]]*)\]", out)
+        none = re.search(r"'" + re.escape(n) + r"' does not depend on any axioms", out)
+        ax = [a.strip() for a in m.group(1).split(",")] if m else ([] if none else None)
+        # a theorem whose proof failed is either absent or carries `sorryAx`: both are "not ok"
+        ok = ax is not None and set(ax) <= core.ALLOWED_AXIOMS
+        res.append({"name": n, "ok": ok, "axioms": ax,
+                    "detail": "regenerated tables:\n" + text[text.find("def dispatch"):text.find("/-- the current source decides")]
+                              + (p.stdout or "")[-1500:] + (p.stderr or "")[-800:]})
+    return res
+
 MODEL_FUNCTION = "OrmGen.generate / OrmGen.observe / OrmGen.Spec.expected (Model/OrmGen.lean)"
 TRUSTED = [
     "Lean 4.33 kernel; axioms of each theorem listed under coverage.theorems",
@@ -58,6 +113,8 @@ TRUSTED = [
     "S-expression driver",
     "SQLAlchemy 2 declarative scan / configure_mappers / create_all on SQLite, Jinja2 and black are external: 'imports, "
     "configures, creates' is their judgement, observed for real on every generated model, never proved",
+    "second tie: the AST translator harness/translate/c06_translate.py (strict; rejects what it does not recognise) and "
+    "OrmDispatch.factsOf, the hand-written table of the WrappedField predicates on the field shapes of the grammar",
 ]
 ASSUMPTIONS = [
     "class and field names are ASCII identifiers (Lean `lower` is ASCII lower-casing)",
@@ -71,7 +128,10 @@ RULE = ("random models over the grammar of the property text (1-6 dataclasses; s
         "datetimes, lists of builtins, (Optional) references, collections, single and multi-level inheritance, self and "
         "mutual references, several collections of one target, overridden fields, private fields, short names and long "
         "descriptive names (classes 30-45, fields 20-40 characters, long common prefixes), shuffled declaration "
-        "and registration order, with/without `from __future__ import annotations`; every third model and a fixed family "
+        "and registration order, with/without `from __future__ import annotations`; references inside one inheritance chain "
+        "(to a direct subclass without back reference, to a grandchild, parent <-> child; shape + fixed family), fields of "
+        "classes that are keys of ORMatic's `type_mappings` argument and entries no field uses, references to classes "
+        "outside the class diagram; every third model and a fixed family "
         "spread over 2-3 modules whose cross-module names are visible under TYPE_CHECKING only), each generated, imported, "
         "configured, created and inspected in a fresh subprocess and regenerated under another PYTHONHASHSEED and class "
         "order; non-trivial = at least two classes or at least three mapped fields; distinct by case text")
@@ -97,6 +157,7 @@ LONG_FIELD_NAMES = [pre + mid + tail
                     for tail in ["primary", "secondary", "backup", "north", "south"]
                     if 20 <= len(pre + mid + tail) <= 40]
 ENUM_NAMES = ["Color", "Mode", "Grade"]
+TM_NAMES = ["Money", "Quantity", "Span"]   # classes persisted through a TypeDecorator (`type_mappings` keys)
 
 
 def budget(tier: str) -> int:
@@ -124,11 +185,11 @@ def _parse(line: str):
 def parse_case(line: str) -> dict:
     s = _parse(line)
     assert s[0] == "m"
-    d = {"fut": True, "ord": [], "ord2": [], "enums": [], "classes": []}
+    d = {"fut": True, "ord": [], "ord2": [], "enums": [], "tm": [], "classes": []}
     for it in s[1:]:
         if it[0] == "fut":
             d["fut"] = it[1] == "T"
-        elif it[0] in ("ord", "ord2", "enums"):
+        elif it[0] in ("ord", "ord2", "enums", "tm"):
             d[it[0]] = list(it[1:])
         elif it[0] == "split":
             d["split_real"] = it[1] == "R"
@@ -156,6 +217,9 @@ def show_case(d: dict) -> str:
     for c in d["classes"]:
         fs = "".join(" (%s %s%s)" % (n, k, "" if a is None else " " + a) for n, k, a in c["fields"])
         parts.append("(c %s %s%s)" % (c["name"], c["base"] or "-", fs))
+    if d.get("tm"):
+        # keys of ORMatic's `type_mappings` argument (classes persisted through a TypeDecorator), used by a field or not
+        parts.append("(tm %s)" % " ".join(d["tm"]))
     if any(c.get("part", 0) for c in d["classes"]):
         # source layout only (the Lean driver ignores it): module index of every class, `R` = references to classes of
         # lower-numbered modules are imported for real, `T` = every cross-module reference is TYPE_CHECKING-only
@@ -184,6 +248,10 @@ def _annotation(kind: str, arg, fut: bool, declared: set) -> str:
         return "Optional[datetime]"
     if kind == "j":
         return "List[%s]" % arg
+    if kind == "cu":
+        return arg
+    if kind == "ocu":
+        return "Optional[%s]" % arg
     if kind == "r":
         return cls(arg)
     if kind == "or":
@@ -198,10 +266,16 @@ def render_module(d: dict) -> str:
     if d["fut"]:
         out.append("from __future__ import annotations")
     out += ["from dataclasses import dataclass", "from datetime import datetime", "from enum import Enum",
-            "from typing_extensions import List, Optional", "", ""]
+            "from typing_extensions import List, Optional"]
+    if d.get("tm"):
+        out.append("from %s import %s" % (TM_CLASSES, ", ".join(d["tm"])))
+    out += ["", ""]
     for e in d["enums"]:
         out += ["class %s(Enum):" % e, "    FIRST = 1", "    SECOND = 2", "", ""]
-    declared: set = set()
+    for u in external_targets(d):
+        # a class of the user's module that is not part of the class diagram: fields of this type are not mapped
+        out += ["class %s:" % u, "    pass", "", ""]
+    declared: set = set(external_targets(d))
     for c in d["classes"]:
         out.append("@dataclass")
         out.append("class %s%s:" % (c["name"], "(%s)" % c["base"] if c["base"] else ""))
@@ -213,6 +287,31 @@ def render_module(d: dict) -> str:
         declared.add(c["name"])
         out += ["", ""]
     return "\n".join(out)
+
+
+TM_CLASSES = "c06_value_classes"   # module of the classes that are keys of `type_mappings`
+TM_TYPES = "c06_value_columns"     # module of the TypeDecorators they are mapped to
+
+
+def render_type_mapping_modules(d: dict) -> dict:
+    """two extra modules: plain value classes, and one SQLAlchemy TypeDecorator per class (the `type_mappings` values)"""
+    a = ["", ""]
+    for n in d.get("tm", []):
+        a += ["class %s:" % n, "    def __init__(self, text=''):", "        self.text = text", "", ""]
+    b = ["from sqlalchemy import String, TypeDecorator", "import %s" % TM_CLASSES, "", ""]
+    for n in d.get("tm", []):
+        b += ["class %sColumn(TypeDecorator):" % n, "    impl = String(64)", "    cache_ok = True", "",
+              "    def process_bind_param(self, value, dialect):",
+              "        return None if value is None else value.text", "",
+              "    def process_result_value(self, value, dialect):",
+              "        return None if value is None else %s.%s(value)" % (TM_CLASSES, n), "", ""]
+    return {TM_CLASSES + ".py": "\n".join(a), TM_TYPES + ".py": "\n".join(b)}
+
+
+def external_targets(d: dict) -> list:
+    """reference targets that are not classes of the model (never handed to ORMatic)"""
+    names = {c["name"] for c in d["classes"]}
+    return sorted({a for c in d["classes"] for _, k, a in c["fields"] if k in ("r", "or") and a not in names})
 
 
 def is_split(d: dict) -> bool:
@@ -253,6 +352,8 @@ def render_sources(d: dict, mod: str):
         lazy -= real
         out = ["from __future__ import annotations", "from dataclasses import dataclass", "from datetime import datetime",
                "from typing import TYPE_CHECKING", "from typing_extensions import List, Optional"]
+        if d.get("tm"):
+            out.append("from %s import %s" % (TM_CLASSES, ", ".join(d["tm"])))
         used_enums = sorted({a for c in mine for _, k, a in c["fields"] if k in ("e", "oe")})
         if used_enums:
             out.append("from %s_en import %s" % (mod, ", ".join(used_enums)))
@@ -317,9 +418,9 @@ def ground_truth(d: dict) -> str:
         for n, k, a in c["fields"]:
             if n.startswith("_") or n in anc_names:
                 continue
-            if k in ("s", "e", "d", "j"):
+            if k in ("s", "e", "d", "j", "cu"):
                 cols.append(n)
-            elif k in ("o", "oe", "od"):
+            elif k in ("o", "oe", "od", "ocu"):
                 cols.append(n + "?")
             elif k in ("r", "or") and a in by:
                 cols.append(n + "_id" + ("?" if k == "or" else ""))
@@ -357,12 +458,16 @@ def _exc_kind(e: BaseException) -> str:
     return {"DuplicateColumnError": "dupcol", "MappedAnnotationError": "unresolved"}.get(n, n)
 
 
-def _generate(where: dict, order, out_path: str) -> str:
+def _generate(where: dict, order, out_path: str, tm=()) -> str:
     import importlib
     from krrood.class_diagrams.class_diagram import ClassDiagram
     from krrood.ormatic.ormatic import ORMatic
 
-    o = ORMatic(ClassDiagram([getattr(importlib.import_module(where[c]), c) for c in order]))
+    kwargs = {}
+    if tm:
+        classes, columns = importlib.import_module(TM_CLASSES), importlib.import_module(TM_TYPES)
+        kwargs["type_mappings"] = {getattr(classes, n): getattr(columns, n + "Column") for n in tm}
+    o = ORMatic(ClassDiagram([getattr(importlib.import_module(where[c]), c) for c in order]), **kwargs)
     o.make_all_tables()
     with open(out_path, "w") as f:
         o.to_sqlalchemy_file(f)
@@ -409,7 +514,7 @@ def _inspect(g, d: dict) -> dict:
         for col in tbl.columns:
             mark = ""
             k = allf.get(col.name, (None, None))[0]
-            if k in ("o", "oe", "od"):
+            if k in ("o", "oe", "od", "ocu"):
                 mark = "?" if col.nullable else "!"
             elif col.name.endswith("_id") and allf.get(col.name[:-3], (None, None))[0] == "or":
                 mark = "?" if col.nullable else "!"
@@ -461,7 +566,7 @@ def _worker_main(jobfile: str) -> None:
         where = job["where"]
         if job["mode"] == "full":
             try:
-                text = _generate(where, d["ord"], os.path.join(job["dir"], mod + "_orm.py"))
+                text = _generate(where, d["ord"], os.path.join(job["dir"], mod + "_orm.py"), d.get("tm", ()))
             except Exception as e:  # noqa: BLE001
                 res["fail"] = "gen:" + _exc_kind(e)
                 res["detail"] = str(e)[:300]
@@ -479,9 +584,9 @@ def _worker_main(jobfile: str) -> None:
             res.update(_inspect(g, d))
         else:
             try:
-                t1 = _generate(where, d["ord"], os.path.join(job["dir"], mod + "_orm_b.py"))
+                t1 = _generate(where, d["ord"], os.path.join(job["dir"], mod + "_orm_b.py"), d.get("tm", ()))
                 res["sha"] = hashlib.sha1(t1.encode()).hexdigest()
-                t2 = _generate(where, d["ord2"], os.path.join(job["dir"], mod + "_orm_c.py"))
+                t2 = _generate(where, d["ord2"], os.path.join(job["dir"], mod + "_orm_c.py"), d.get("tm", ()))
                 res["blocks"] = _blocks(t2)
             except Exception as e:  # noqa: BLE001
                 res["fail"] = "gen:" + _exc_kind(e)
@@ -521,6 +626,8 @@ def _observe(d: dict, line: str) -> str:
     try:
         mod = "c06m_" + hashlib.sha1(line.encode()).hexdigest()[:10]
         files, where = render_sources(d, mod)
+        if d.get("tm"):
+            files.update(render_type_mapping_modules(d))
         for fn, text in files.items():
             Path(tmp, fn).write_text(text)
         job = {"dir": tmp, "src": str(REPO / "src"), "module": mod, "where": where, "case": d, "mode": "full"}
@@ -607,19 +714,26 @@ def _topo_shuffle(rng, classes):
 
 def _random_model(rng, shape: str) -> dict:
     n = rng.choice([1, 2, 2, 3, 3, 3, 4, 4, 5, 6])
-    if shape in ("mutual", "multi-coll", "deep", "long-names") and n < 2:
+    if shape in ("mutual", "multi-coll", "deep", "long-names", "hier-refs") and n < 2:
         n = 2
     if shape == "deep" and n < 3:
+        n = 3
+    if shape == "hier-refs" and n < 3 and rng.random() < 0.7:
         n = 3
     # descriptive long class / field names (always in the shape `long-names`, now and then in every other shape)
     long_names = shape == "long-names" or rng.random() < 0.12
     names = rng.sample(LONG_CLASS_NAMES if long_names else CLASS_NAMES, n)
     enums = rng.sample(ENUM_NAMES, rng.choice([0, 1, 1, 2]))
+    # the `type_mappings` argument: 0-3 keys; fields may use some of them, the others stay unused entries
+    tm = rng.sample(TM_NAMES, rng.choice([1, 2, 3])) if (shape == "type-mappings" or rng.random() < 0.2) else []
+    tm_used = tm[:rng.choice([0, 1, len(tm)])] if tm else []
+    if shape == "type-mappings" and not tm_used and rng.random() < 0.6:
+        tm_used = tm[:1]
     classes = []
     for i, nm in enumerate(names):
         base = None
         if i > 0:
-            if shape == "deep":
+            if shape in ("deep", "hier-refs"):
                 base = names[i - 1] if i < 4 else rng.choice(names[:i])
             elif rng.random() < 0.4:
                 base = rng.choice(names[:i])
@@ -658,9 +772,12 @@ def _random_model(rng, shape: str) -> dict:
                 continue
             used.add(fname)
             kind = rng.choices(
-                ["s", "o", "e", "oe", "d", "od", "j", "r", "or", "l"],
-                weights=[22, 12, 6 if enums else 0, 3 if enums else 0, 5, 3, 8, 12, 12, 14])[0]
+                ["s", "o", "e", "oe", "d", "od", "j", "r", "or", "l", "cu", "ocu"],
+                weights=[22, 12, 6 if enums else 0, 3 if enums else 0, 5, 3, 8, 12, 12, 14,
+                         10 if tm_used else 0, 8 if tm_used else 0])[0]
             arg = None
+            if kind in ("cu", "ocu"):
+                arg = rng.choice(tm_used)
             if kind in ("s", "o", "j"):
                 arg = rng.choice(SCALARS)
             elif kind in ("e", "oe"):
@@ -694,6 +811,26 @@ def _random_model(rng, shape: str) -> dict:
         tgt = rng.choice(others)
         for fn in rng.sample(group, rng.choice([2, 3, 4])):
             a["fields"].append((fn, "l", tgt if rng.random() < 0.7 else rng.choice(others)))
+    if shape == "hier-refs":
+        # references INSIDE one inheritance chain: from a class to its own direct subclass (with and without a reference
+        # back), to a grandchild, from a subclass to an ancestor — every such reference is a second foreign-key path
+        # between two tables that are already joined by the inheritance key
+        def ancestors_of(c):
+            res, cur = [], by.get(c["base"]) if c["base"] else None
+            while cur is not None:
+                res.append(cur)
+                cur = by.get(cur["base"]) if cur["base"] else None
+            return res
+        pairs = [(a, c) for c in classes for a in ancestors_of(c)]  # (ancestor, descendant)
+        rng.shuffle(pairs)
+        down_names = ["kid", "heir", "lower", "deep"]
+        up_names = ["up", "elder", "upper", "root"]
+        for i, (a, c) in enumerate(pairs[:rng.choice([1, 2, 2, 3, 4])]):
+            mode = rng.choice(["down", "down", "up", "both", "both"])
+            if mode in ("down", "both"):
+                a["fields"].append((down_names[i % 4] + ("s" if i > 3 else ""), rng.choice(["r", "or", "or", "l"]), c["name"]))
+            if mode in ("up", "both"):
+                c["fields"].append((up_names[i % 4] + ("s" if i > 3 else ""), rng.choice(["r", "or", "or", "l"]), a["name"]))
     if shape == "self-ref":
         c = rng.choice(classes)
         c["fields"].append(("previous", rng.choice(["r", "or"]), c["name"]))
@@ -709,6 +846,9 @@ def _random_model(rng, shape: str) -> dict:
         if not any(f[1] in ("s", "o") and not f[0].startswith("_") for c in classes for f in c["fields"]):
             c = rng.choice(classes)
             c["fields"].insert(0, ("ident", "s", "int"))
+    if shape != "no-builtin" and rng.random() < 0.12:
+        # a field whose type is a class of the user's module that is not handed to ORMatic: nothing is mapped for it
+        rng.choice(classes)["fields"].append(("ext", rng.choice(["r", "or"]), rng.choice(["Unmapped", "Foreign"])))
     # de-duplicate names inside each class (forced fields may collide)
     for c in classes:
         seen, fs = set(), []
@@ -724,11 +864,14 @@ def _random_model(rng, shape: str) -> dict:
     rng.shuffle(order2)
     if order2 == order:
         order2 = list(reversed(order))
-    return {"fut": rng.random() < 0.5, "ord": order, "ord2": order2, "enums": sorted(enums), "classes": decl}
+    if tm_used and not any(f[1] in ("cu", "ocu") for c in classes for f in c["fields"]):
+        rng.choice(classes)["fields"].append(("worth", rng.choice(["cu", "ocu"]), tm_used[0]))
+    return {"fut": rng.random() < 0.5, "ord": order, "ord2": order2, "enums": sorted(enums), "tm": sorted(tm),
+            "classes": decl}
 
 
-SHAPES = ["plain", "plain", "long-names", "deep", "mutual", "multi-coll", "self-ref", "plain", "deep", "no-builtin",
-          "plain", "self-coll"]
+SHAPES = ["plain", "hier-refs", "long-names", "deep", "type-mappings", "mutual", "multi-coll", "self-ref", "plain",
+          "hier-refs", "no-builtin", "type-mappings", "self-coll", "deep"]
 
 
 def _assign_parts(rng, d: dict) -> None:
@@ -804,6 +947,28 @@ NAME_FAMILY = [
 ]
 
 
+# A fixed family about references inside one inheritance chain (A <- B <- C): a class refers to its own direct subclass
+# without a reference back; to a subclass that has subclasses itself, and to a grandchild; subclasses refer to their
+# ancestors; parent and child refer to each other, by reference and by collection.
+HIER_FAMILY = [
+    "(m (fut T) (ord A B) (ord2 B A) (enums) (c A - (x s int) (kid or B)) (c B A (y s int)))",
+    "(m (fut F) (ord C A B) (ord2 B C A) (enums) (c A - (x s int) (mid r B) (leaf or C)) (c B A (y s int)) "
+    "(c C B (z s int)))",
+    "(m (fut T) (ord B C A) (ord2 A B C) (enums) (c A - (x s int)) (c B A (y s int) (up or A)) "
+    "(c C B (z s int) (top r A) (mid or B)))",
+    "(m (fut T) (ord A B C) (ord2 C B A) (enums) (c A - (x s int) (kid or B) (kids l B) (deep l C)) "
+    "(c B A (y s int) (up r A) (ups l A)) (c C B (z s int) (elder or B)))",
+]
+
+
+# A fixed family about the `type_mappings` argument: a used key, an Optional use, a key no field uses, only unused keys.
+TM_FAMILY = [
+    "(m (fut T) (ord Item Owner) (ord2 Owner Item) (enums) (c Item - (size s int) (price cu Money) (rebate ocu Money)) "
+    "(c Owner - (title s str) (budget ocu Quantity) (items l Item)) (tm Money Quantity Span))",
+    "(m (fut F) (ord Box) (ord2 Box) (enums) (c Box - (count s int) (label o str)) (tm Money))",
+]
+
+
 def _tags(d: dict, shape: str):
     tags = [shape, "classes=%d" % len(d["classes"]), "fut" if d["fut"] else "nofut"]
     longest = max([len("%sdao_%s_association" % (c["name"], n)) for c in d["classes"] for n, k, _ in c["fields"]
@@ -816,6 +981,29 @@ def _tags(d: dict, shape: str):
     tags += ["kind:" + k for k in sorted(kinds)]
     if any(c["base"] for c in d["classes"]):
         tags.append("inheritance")
+    by0 = {c["name"]: c for c in d["classes"]}
+
+    def _anc(n):
+        res, cur = set(), by0[n]["base"]
+        while cur in by0 and cur not in res:
+            res.add(cur)
+            cur = by0[cur]["base"]
+        return res
+    for c in d["classes"]:
+        for _, k, a in c["fields"]:
+            if k in ("r", "or", "l") and a in by0:
+                if c["name"] in _anc(a):
+                    tags.append("ref-to-descendant" + ("-grandchild" if by0[a]["base"] != c["name"] else ""))
+                elif a in _anc(c["name"]):
+                    tags.append("ref-to-ancestor")
+    tags = list(dict.fromkeys(tags))
+    if external_targets(d):
+        tags.append("ref-to-unmapped-class")
+    if d.get("tm"):
+        used = {a for c in d["classes"] for _, k, a in c["fields"] if k in ("cu", "ocu")}
+        tags.append("type-mappings=%d" % len(d["tm"]))
+        if set(d["tm"]) - used:
+            tags.append("type-mappings-unused-entry")
     if is_split(d):
         by = {c["name"]: c["part"] for c in d["classes"]}
         lazy = max((len({a for _, k, a in c["fields"] if k in ("r", "or", "l") and by.get(a, c["part"]) != c["part"]})
@@ -827,11 +1015,13 @@ def _tags(d: dict, shape: str):
 def generate(rng, tier, n):
     cases = [Case(show_case(parse_case(l)), _tags(parse_case(l), "split-family"), "exhaustive") for l in SPLIT_FAMILY]
     cases += [Case(show_case(parse_case(l)), _tags(parse_case(l), "name-family"), "exhaustive") for l in NAME_FAMILY]
+    cases += [Case(show_case(parse_case(l)), _tags(parse_case(l), "hier-family"), "exhaustive") for l in HIER_FAMILY]
+    cases += [Case(show_case(parse_case(l)), _tags(parse_case(l), "tm-family"), "exhaustive") for l in TM_FAMILY]
     for i in range(n):
         shape = SHAPES[i % len(SHAPES)] if i < 2 * len(SHAPES) else rng.choice(SHAPES)
         d = _random_model(rng, shape)
         # every third model (with at least two classes) is laid out over several modules
-        if len(d["classes"]) >= 2 and i % 3 == 1:
+        if len(d["classes"]) >= 2 and i % 3 == 1 and not external_targets(d):
             _assign_parts(rng, d)
         cases.append(Case(show_case(d), _tags(d, shape), "random"))
     return cases
